@@ -4,195 +4,7 @@
 use vstd::prelude::*;
 use std::marker::PhantomData;
 verus! {
-
-// A-KEY: `index()` is a pure function of the key (ToUniqueIndex's documented contract).
-//@extract file=src/data/vector_map.rs path="trait ToUniqueIndex" kind=type
-//@rw R-SIG
-//@old
-fn index(&self) -> usize;
-//@new
-spec fn index_spec(&self) -> usize;
-fn index(&self) -> (r: usize)
-    ensures r == self.index_spec();
-//@end
-
-//@extract file=src/data/vector_map.rs path="impl ToUniqueIndex for usize" kind=type id=usize::ToUniqueIndex
-//@rw R-SIG
-//@old
-fn index(&self) -> usize {
-//@new
-open spec fn index_spec(&self) -> usize { *self }
-fn index(&self) -> (r: usize) {
-//@end
-
-//@extract file=src/data/vector_map.rs path="struct VectorMap" kind=type
-//@end
-
-pub open spec fn count_some<V>(s: Seq<Option<V>>) -> nat
-    decreases s.len()
-{
-    if s.len() == 0 { 0 } else { count_some(s.drop_last()) + if s.last().is_some() { 1nat } else { 0nat } }
-}
-
-proof fn lemma_count_push<V>(s: Seq<Option<V>>, x: Option<V>)
-    ensures count_some(s.push(x)) == count_some(s) + if x.is_some() { 1nat } else { 0nat }
-{
-    assert(s.push(x).drop_last() =~= s);
-}
-
-proof fn lemma_count_update<V>(s: Seq<Option<V>>, i: int, x: Option<V>)
-    requires 0 <= i < s.len()
-    ensures count_some(s.update(i, x)) + (if s[i].is_some() { 1nat } else { 0nat }) == count_some(s) + (if x.is_some() { 1nat } else { 0nat })
-    decreases s.len()
-{
-    if i == s.len() - 1 {
-        assert(s.update(i, x).drop_last() =~= s.drop_last());
-    } else {
-        lemma_count_update(s.drop_last(), i, x);
-        assert(s.update(i, x).drop_last() =~= s.drop_last().update(i, x));
-    }
-}
-
-proof fn lemma_count_le_len<V>(s: Seq<Option<V>>)
-    ensures count_some(s) <= s.len()
-    decreases s.len()
-{
-    if s.len() > 0 { lemma_count_le_len(s.drop_last()); }
-}
-
-proof fn lemma_count_zero_all_none<V>(s: Seq<Option<V>>)
-    requires count_some(s) == 0
-    ensures forall|i: int| 0 <= i < s.len() ==> s[i].is_none()
-    decreases s.len()
-{
-    if s.len() > 0 {
-        lemma_count_zero_all_none(s.drop_last());
-        assert forall|i: int| 0 <= i < s.len() implies s[i].is_none() by {
-            if i < s.len() - 1 { assert(s.drop_last()[i] == s[i]); }
-        }
-    }
-}
-
-proof fn lemma_count_pos_nonempty<V>(s: Seq<Option<V>>)
-    requires count_some(s) > 0
-    ensures s.len() > 0
-{
-}
-
-// ---- abstract model: a total function from indices to Option<V>, plus the reported length ----
-impl<K: ToUniqueIndex, V> VectorMap<K, V> {
-    /// model lookup
-    pub closed spec fn sget(&self, i: int) -> Option<V> {
-        if 0 <= i < self.data@.len() { self.data@[i] } else { None }
-    }
-    /// representation invariant: the reported size is the number of present entries
-    pub closed spec fn wf(&self) -> bool {
-        self.size as nat == count_some(self.data@)
-    }
-    pub closed spec fn slen(&self) -> nat { self.size as nat }
-    /// number of present entries of the model
-    pub closed spec fn card(&self) -> nat { count_some(self.data@) }
-    pub closed spec fn backing_len(&self) -> nat { self.data@.len() }
-}
-
-//@extract file=src/data/vector_map.rs path="impl<K, V> VectorMap<K, V>" kind=header
-//@end
-
-//@extract file=src/data/vector_map.rs path="impl<K, V> VectorMap<K, V>|fn new"
-//@ret r
-//@spec
-        ensures
-            r.wf(),                                        //@ob C19.vm.new.wf
-            r.slen() == 0,                                 //@ob C19.vm.new.len0
-            forall|i: int| r.sget(i).is_none(),            //@ob C19.vm.new.empty
-//@end
-
-//@extract file=src/data/vector_map.rs path="impl<K, V> VectorMap<K, V>|fn with_capacity"
-//@ret r
-//@spec
-        ensures
-            r.wf(),                                        //@ob C19.vm.with_capacity.wf
-            r.slen() == 0,                                 //@ob C19.vm.with_capacity.len0
-            forall|i: int| r.sget(i).is_none(),            //@ob C19.vm.with_capacity.empty
-//@end
-
-//@extract file=src/data/vector_map.rs path="impl<K, V> VectorMap<K, V>|fn new_with_vec"
-//@ret r
-//@spec
-        requires data@.len() == 0,
-        ensures
-            r.wf(), r.slen() == 0,                         //@ob C19.vm.new_with_vec.wf
-            forall|i: int| r.sget(i).is_none(),            //@ob C19.vm.new_with_vec.empty
-//@proof entry
-        proof { assert(count_some(data@) == 0); }
-//@end
-
-//@extract file=src/data/vector_map.rs path="impl<K, V> VectorMap<K, V>|fn insert"
-//@spec
-        requires old(self).wf(),
-        ensures
-            final(self).wf(),                                                                                               //@ob C19.vm.insert.wf
-            forall|i: int| final(self).sget(i) == if i == key.index_spec() { Some(value) } else { old(self).sget(i) },     //@ob C19.vm.insert.contents_and_frame
-            final(self).slen() == old(self).slen() + if old(self).sget(key.index_spec() as int).is_none() { 1nat } else { 0nat },  //@ob C19.vm.insert.len
-//@loop 1
-            invariant self.size == old(self).size, count_some(self.data@) == count_some(old(self).data@),
-                self.data@.len() >= old(self).data@.len(),
-                forall|i: int| 0 <= i < old(self).data@.len() ==> self.data@[i] == old(self).data@[i],
-                forall|i: int| old(self).data@.len() <= i < self.data@.len() ==> self.data@[i].is_none(),
-            decreases index + 1 - self.data.len(),
-//@proof loopstart #1
-            proof { lemma_count_push(self.data@, None); }
-//@proof afterloop #1
-        proof { lemma_count_update(self.data@, index as int, Some(value)); lemma_count_le_len(self.data@.update(index as int, Some(value))); }
-//@end
-
-//@extract file=src/data/vector_map.rs path="impl<K, V> VectorMap<K, V>|fn get"
-//@ret r
-//@spec
-        ensures
-            match r { Some(x) => self.sget(key.index_spec() as int) == Some(*x), None => self.sget(key.index_spec() as int).is_none() },   //@ob C19.vm.get.model
-//@end
-
-//@extract file=src/data/vector_map.rs path="impl<K, V> VectorMap<K, V>|fn remove"
-//@ret r
-//@spec
-        requires old(self).wf(),
-        ensures
-            final(self).wf(),                                                                                     //@ob C19.vm.remove.wf
-            r == old(self).sget(key.index_spec() as int),                                                         //@ob C19.vm.remove.returns_old
-            forall|i: int| final(self).sget(i) == if i == key.index_spec() { None } else { old(self).sget(i) },   //@ob C19.vm.remove.contents_and_frame
-            final(self).slen() == old(self).slen() - if r.is_some() { 1nat } else { 0nat },                      //@ob C19.vm.remove.len
-//@proof entry
-        proof { if key.index_spec() < self.data@.len() { lemma_count_update(self.data@, key.index_spec() as int, None); } }
-//@end
-
-//@extract file=src/data/vector_map.rs path="impl<K, V> VectorMap<K, V>|fn len"
-//@ret r
-//@spec
-        requires self.wf(),
-        ensures r as nat == self.card(), r as nat == self.slen(),     //@ob C19.vm.len.is_cardinality
-//@end
-
-//@extract file=src/data/vector_map.rs path="impl<K, V> VectorMap<K, V>|fn is_empty"
-//@ret r
-//@spec
-        requires self.wf(),
-        ensures r == (self.card() == 0),                              //@ob C19.vm.is_empty.iff_no_entries
-            r ==> forall|i: int| self.sget(i).is_none(),              //@ob C19.vm.is_empty.model_empty
-//@proof entry
-        proof { if self.size == 0 { lemma_count_zero_all_none(self.data@); } }
-//@end
-
-//@extract file=src/data/vector_map.rs path="impl<K, V> VectorMap<K, V>|fn max_key_index"
-//@ret r
-//@spec
-        requires self.wf(),
-        ensures r.is_some() == (self.card() > 0),                     //@ob C19.vm.max_key_index.some_iff_nonempty
-            r.is_some() ==> r.unwrap() + 1 == self.backing_len(),
-//@proof entry
-        proof { if self.size > 0 { lemma_count_pos_nonempty(self.data@); } }
-//@end
-}
+//@include common/vector_map_items.rs
 //@dropped VectorMap::{get_mut, capacity, iter, iter_mut, indices, into_indices, values, into_values}, Default/From impls: iterator adapters and &mut returns are outside Verus' subset; not under contract (sets()/values() of DisjointSet assume their enumeration contract)
 
 } // verus!
